@@ -343,3 +343,17 @@ func init() {
 		}
 	}
 }
+
+func init() {
+	for _, n := range []string{"Stdin", "Stdout", "Stderr"} {
+		globalInits["os."+n] = func(in *Interp, c *Cell) {
+			t := lookupType(in.w.prog, "os", "File")
+			c.V = &PtrV{C: newCell(t, nil)}
+		}
+	}
+	globalInits["os.Args"] = func(in *Interp, c *Cell) {
+		s := in.makeSlice(types.Typ[types.String], 1, 1)
+		s.Cells[0].V = strConst("prog")
+		c.V = s
+	}
+}
